@@ -30,6 +30,8 @@ const (
 	lvOth  = "counter shared\nshared++\n"
 	lvKeys = "counter va by k\nva[\"x\"]++\n"
 	lvKeyC = "counter va by k\nva[\"x\"]++\n# a comment\n"
+	lvG1   = "gauge va\n/(\\d+)/ {\n  va = $1\n}\n"
+	lvG1c  = "gauge va\n/(\\d+)/ {\n  va = $1\n}\n# a comment\n"
 )
 
 func lvCompiles(c string) bool { return c != lvBad && c != "" }
